@@ -101,6 +101,17 @@ theorem decode_never_panics (ty : Ty) (bs : Bytes) : decBufP 64 ty bs = some (de
 theorem stream_readN_never_panics (c : Cfg) (n : Int) (s : Src) : streamReadNP c n s = some (streamReadN c n s) :=
   streamReadNP_eq c n s
 
+/-- malformed varints never yield a value: ten continuation bytes (`ff…`, `80…`) … -/
+theorem varint_ten_continuation_overflows (ty : Ty) (hty : ty.isVarint = true) (cs rest : Bytes) (hl : cs.length = 10)
+    (hc : ∀ b ∈ cs, 128 ≤ b.toNat) : decBuf ty (cs ++ rest) = (.err .overflow, rest) :=
+  decBuf_varint_overflow ty hty _ rest (uvarint_ten_continuation_overflows cs rest hl hc)
+
+/-- … or nine of them and a tenth byte above 1 (more than 64 bits): every `ReadVar*` reports overflow -/
+theorem varint_tenth_byte_overflows (ty : Ty) (hty : ty.isVarint = true) (cs rest : Bytes) (b : UInt8) (hl : cs.length = 9)
+    (hc : ∀ x ∈ cs, 128 ≤ x.toNat) (h1 : b.toNat < 128) (h2 : 1 < b.toNat) :
+    decBuf ty (cs ++ b :: rest) = (.err .overflow, rest) :=
+  decBuf_varint_overflow ty hty _ rest (uvarint_tenth_byte_overflows cs rest b hl hc h1 h2)
+
 /-- on a 32-bit `int` the guard is missing: a length field ≥ 2^31 becomes a negative `Next` count (witness) -/
 theorem witness_int32_panics : decBufP 32 .str [0xff, 0xff, 0xff, 0xff, 1] = none := by decide
 
@@ -182,8 +193,22 @@ theorem stream_equals_buffer (c : Cfg) (hc : Proved c) (ty : Ty) (hty : ty.strea
     the buffer reader in the error kind too (strings do not: a missing body is `io.EOF` on a stream, `ErrByteBufferEmpty`
     on a buffer) -/
 theorem stream_equals_buffer_exact (c : Cfg) (hc : Proved c) (hm : c.mapShort = true) (ty : Ty)
-    (hty : ty.fixedLike = true) (s : Src) : (decStream c ty s).1 = (decBuf ty s.flat).1 :=
-  decStream_exact c hc.1 hm ty hty s
+    (hty : ty.fixedLike = true) (s : Src) (hnf : s.fail = false) : (decStream c ty s).1 = (decBuf ty s.flat).1 :=
+  decStream_exact c hc.1 hm ty hty s hnf
+
+/-- a source that FAILS (an I/O error of its own instead of EOF) after delivering fewer bytes than a read needs: the
+    read reports the source's error -/
+theorem stream_source_failure_reported (c : Cfg) (hc : Proved c) (n : Nat) (s : Src) (hf : s.fail = true)
+    (hn : s.flat.length < n) : (streamRead c n s).1 = .err .io :=
+  streamRead_source_failure c hc.1 n s hf hn
+
+/-- for every typed read and every source, failing or not: a value comes back only if the buffer reader decodes that
+    very value from the bytes the source delivered; where those bytes do not suffice, the read is an error — never a value -/
+theorem stream_value_only_if_delivered (c : Cfg) (hc : Proved c) (ty : Ty) (hty : ty.streamable = true) (s : Src) :
+    (∀ v, (decStream c ty s).1 = .ok v → (decBuf ty s.flat).1 = .ok v) ∧
+    (∀ e, (decBuf ty s.flat).1 = .err e → ∃ e', (decStream c ty s).1 = .err e') := by
+  have h := (decStream_sim c hc ty hty s).1
+  exact ⟨fun v hv => agree_ok_left _ _ v h hv, fun e he => agree_err_right _ _ e h he⟩
 
 /-- every read program (also continuing after errors) -/
 theorem stream_program_equals_buffer (c : Cfg) (hc : Proved c) (ts : List Ty)
@@ -264,41 +289,45 @@ example : rewrite 1 [0xff, 0xee] [1, 2, 3, 4, 5] = some [1, 0xff, 0xee, 4, 5] :=
 /-- moving a field inside the frame: overlapping window, old contents win -/
 example : rewriteSelf 2 0 6 [1, 2, 3, 4, 5, 6, 7, 8] = some [1, 2, 1, 2, 3, 4, 5, 6] := by decide
 
+/-- the source breaks after 3 of the 4 bytes of a u32: its error is reported, not a value -/
+example : decStream ⟨.full, .accept, true⟩ .u32 ⟨false, [[1, 0], [0]], true⟩ = (.err .io, ⟨false, [], true⟩) := by decide
+example : decBuf .varU64 [0xff, 0xff, 0xff, 0xff, 0xff, 0xff, 0xff, 0xff, 0xff, 0x02, 7] = (.err .overflow, [7]) := by decide
+
 /-- the repaired reader over one-byte chunks and over an EOF-with-data source -/
-example : decStream ⟨.full, .accept, true⟩ .u32 ⟨false, [[1], [0], [0], [0]]⟩ = (.ok (.u32 1), ⟨false, []⟩) := by decide
-example : decStream ⟨.full, .accept, true⟩ .u32 ⟨true, [[1, 0, 0, 0]]⟩ = (.ok (.u32 1), ⟨true, []⟩) := by decide
-example : decStream ⟨.full, .accept, true⟩ .str ⟨false, [[0, 0], [0, 0]]⟩ = (.ok (.str []), ⟨false, []⟩) := by decide
+example : decStream ⟨.full, .accept, true⟩ .u32 ⟨false, [[1], [0], [0], [0]], false⟩ = (.ok (.u32 1), ⟨false, [], false⟩) := by decide
+example : decStream ⟨.full, .accept, true⟩ .u32 ⟨true, [[1, 0, 0, 0]], false⟩ = (.ok (.u32 1), ⟨true, [], false⟩) := by decide
+example : decStream ⟨.full, .accept, true⟩ .str ⟨false, [[0, 0], [0, 0]], false⟩ = (.ok (.str []), ⟨false, [], false⟩) := by decide
 
 /-! ### the property is false of today's configuration: concrete witnesses (also the replays on the real code) -/
 
 /-- a single `reader.Read`: a source delivering one byte per call makes `ReadU32` fail although the four bytes are
     there (`sload 0 01,00,00,00` / `ru32`) -/
 theorem witness_single_fragmented :
-    decStream ⟨.single, .accept, false⟩ .u32 ⟨false, [[1], [0], [0], [0]]⟩ = (.err .empty, ⟨false, [[0], [0], [0]]⟩) ∧
+    decStream ⟨.single, .accept, false⟩ .u32 ⟨false, [[1], [0], [0], [0]], false⟩ = (.err .empty, ⟨false, [[0], [0], [0]], false⟩) ∧
     decBuf .u32 [1, 0, 0, 0] = (.ok (.u32 1), []) := by decide
 
 /-- a single `reader.Read`: a source that reports EOF together with the last bytes loses them
     (`sload 1 01000000` / `ru32`) -/
 theorem witness_single_eof_with_data :
-    decStream ⟨.single, .accept, false⟩ .u32 ⟨true, [[1, 0, 0, 0]]⟩ = (.err .eof, ⟨true, []⟩) := by decide
+    decStream ⟨.single, .accept, false⟩ .u32 ⟨true, [[1, 0, 0, 0]], false⟩ = (.err .eof, ⟨true, [], false⟩) := by decide
 
 /-- `ZReadN(0)` falling into `ReadN`: the empty string is rejected (`sload 0 00000000` / `rstr`) -/
 theorem witness_reject_empty_string :
-    decStream ⟨.full, .reject, true⟩ .str ⟨false, [[0, 0, 0, 0]]⟩ = (.err .wrongNum, ⟨false, []⟩) ∧
+    decStream ⟨.full, .reject, true⟩ .str ⟨false, [[0, 0, 0, 0]], false⟩ = (.err .wrongNum, ⟨false, [], false⟩) ∧
     decBuf .str [0, 0, 0, 0] = (.ok (.str []), []) := by decide
 
 theorem not_stream_equals_buffer_single (z : ZeroLen) (m : Bool) :
     ¬ (∀ ty s, ty.streamable = true →
         Out.agree (decStream ⟨.single, z, m⟩ ty s).1 (decBuf ty s.flat).1 = true) := by
   intro h
-  have := h .u32 ⟨false, [[1], [0], [0], [0]]⟩ rfl
+  have := h .u32 ⟨false, [[1], [0], [0], [0]], false⟩ rfl
   cases z <;> cases m <;> revert this <;> decide
 
 theorem not_stream_equals_buffer_reject (m : Bool) :
     ¬ (∀ ty s, ty.streamable = true →
         Out.agree (decStream ⟨.full, .reject, m⟩ ty s).1 (decBuf ty s.flat).1 = true) := by
   intro h
-  have := h .str ⟨false, [[0, 0, 0, 0]]⟩ rfl
+  have := h .str ⟨false, [[0, 0, 0, 0]], false⟩ rfl
   cases m <;> revert this <;> decide
 
 end Nv.C10
